@@ -14,7 +14,7 @@ RSymOf   == [LPAREN |-> "LP", RPAREN |-> "RP", LSQUARE |-> "LS", RSQUARE |-> "RS
              COLON |-> "COLON", PLUS |-> "PLUS", EQUAL |-> "EQ", GREATER |-> "GT", TILDE |-> "TILDE", CARROT |-> "CARET",
              LESS |-> "LT", MINUS |-> "MINUS"]
 \* characters that cannot start a token
-RCannotStart == {"HASH","SEMI","PCT","COMMA","NUL","BAD","NBSP","BANG","AMP","PIPE","AT","DOT","USYM","LSEP","DEL","CTRL","UREPL","LDQ","RDQ"}
+RCannotStart == {"HASH","SEMI","PCT","COMMA","NUL","BAD","NBSP","BANG","AMP","PIPE","AT","DOT","USYM","LSEP","DEL","CTRL","UREPL","LDQ","RDQ","USUP","UFRAC"}
 
 Call(k) == [c |-> k[1], typ |-> k[2], s |-> k[3], e |-> k[4], text_ok |-> k[5], b |-> k[6], a |-> k[7]]
 Calls(ks) == [i \in DOMAIN ks |-> Call(ks[i])]
